@@ -194,6 +194,67 @@ def q2_same_measure(F, r):
             r.fail(name, f"only {'estimate' if re_ else 'fitness'} uses `{fnf[0]}`: quoted change and objective value are computed by different measures", F.loc(est))
 
 
+# ---- S1: sign agreement between the quoted change and the objective value (E-S) ----------------------------------------
+FEAT = "vrp_core::construction::features::"
+
+
+def s1_sign_agreement(F, r):
+    from .. import signs
+    # (a) unassigned jobs: fitness adds estimator(job) per unassigned job, the quote for assigning a job is its negative
+    E = signs.Engine(F, {}, {"function::Fn::call": lambda e, a, vn: signs.num(signs.POS, None, vn)})
+    est = [m for m in F.trait_impl_methods("vrp_core::models::goal::FeatureObjective::estimate") if "MinimizeUnassignedObjective" in m]
+    fit = [m for m in F.trait_impl_methods("vrp_core::models::goal::FeatureObjective::fitness") if "MinimizeUnassignedObjective" in m]
+    if len(est) != 1 or len(fit) != 1:
+        raise AnchorError("MinimizeUnassignedObjective::estimate/fitness")
+    a = E.analyse(est[0])
+    S = signs.as_num(a.ret)[1] if a.ret else signs.TOP
+    if S <= signs.NONPOS and "-" in S:
+        r.ok("MinimizeUnassigned::estimate", "assigning a job is quoted as -estimator(job) (sign {-,0} for a positive estimator)")
+    else:
+        r.fail("MinimizeUnassigned::estimate", f"for a positive job estimator the quote has sign {{{','.join(sorted(S))}}}: assigning a job must be quoted as the DECREASE of the "
+               "unassigned-jobs objective (−estimator), otherwise the cheapest quote is not the cheapest change", F.loc(est[0]))
+    cls = [c for c in F.children.get(fit[0], []) if any(t["callee"].endswith("function::Fn::call") for _, t in mir.calls(F.fns[c]))]
+    if len(cls) != 1:
+        raise AnchorError(f"MinimizeUnassigned::fitness: {len(cls)} closures apply the estimator")
+    a = E.analyse(cls[0])
+    S = signs.as_num(a.ret)[1] if a.ret else signs.TOP
+    if S == signs.POS:
+        r.ok("MinimizeUnassigned::fitness", "sums +estimator(job) over unassigned jobs")
+    else:
+        r.fail("MinimizeUnassigned::fitness", f"each unassigned job contributes a term of sign {{{','.join(sorted(S))}}} (expected +estimator)", F.loc(cls[0]))
+    # (b) number of tours: opening a tour is quoted as exactly the change of the tour count
+    E2 = signs.Engine(F, {}, {})
+    n = 0
+    for fid in sorted(F.fns):
+        fn = F.fns[fid]
+        if fn["kind"] == "Closure" or "::promoted[" in fid or not fid.startswith(FEAT + "fleet_usage::create_"):
+            continue
+        route_cl = [c for c in F.children.get(fid, []) if F.fns[c]["parent"] == fid and any("RouteContext" in t for t in F.fns[c]["locals"][2:3])]
+        sol_cl = [c for c in F.children.get(fid, []) if F.fns[c]["parent"] == fid and any("SolutionContext" in t for t in F.fns[c]["locals"][2:3])]
+        if len(route_cl) != 1 or len(sol_cl) != 1:
+            continue
+        ra, sa = E2.analyse(route_cl[0]), E2.analyse(sol_cl[0])
+        rv, sv = signs.as_num(ra.ret) if ra.ret else signs.num(signs.TOP), signs.as_num(sa.ret) if sa.ret else signs.num(signs.TOP)
+        name = util.short_fn(fid)
+        counts_tours = any(t["callee"].endswith(("::len", "::count")) for g in F.family(sol_cl[0]) if g in F.fns for _, t in mir.calls(F.fns[g])) and sv[1] != signs.TOP
+        if not counts_tours:
+            r.ok(f"{name}", "not a tour-count objective (solution estimate is not a route count): not additive, not decided")
+            continue
+        n += 1
+        unit = 1.0 if "+" in sv[1] else -1.0
+        e_empty = signs.Engine(F, {}, {"Tour::job_count": lambda e, a, vn: signs.num(signs.ZERO, {0}, vn), "Tour::has_jobs": lambda e, a, vn: ("bool", False)})
+        e_used = signs.Engine(F, {}, {"Tour::job_count": lambda e, a, vn: signs.num(signs.POS, None, vn), "Tour::has_jobs": lambda e, a, vn: ("bool", True)})
+        ve = signs.as_num(e_empty.analyse(route_cl[0]).ret or signs.num(signs.TOP))
+        vu = signs.as_num(e_used.analyse(route_cl[0]).ret or signs.num(signs.TOP))
+        if ve[2] == frozenset({unit}) and vu[2] == frozenset({0.0}):
+            r.ok(f"{name}: quote", f"inserting into an unused tour is quoted as {unit:+.0f} (the change of the solution value {signs.show(sv)} per tour), into a used tour as 0")
+        else:
+            r.fail(f"{name}: quote", f"inserting into an unused tour is quoted as {signs.show(ve)} and into a used tour as {signs.show(vu)}, but the objective value "
+                   f"({signs.show(sv)}) changes by {unit:+.0f} exactly when a tour gets its first job: quote and objective change disagree", F.loc(route_cl[0]))
+    if n < 2:
+        raise AnchorError(f"only {n} tour-count features found")
+
+
 def run(ctx):
     ctx.explanation = (
         "Structure of the quote: the cost stored for a position is goal.estimate(activity move) + the route-level estimate, which is threaded unchanged "
@@ -202,4 +263,5 @@ def run(ctx):
         "method that also feeds the cached total their fitness reads; single-closure objectives evaluate the same closure in both methods (Q2).")
     ctx.not_decided = "numeric equality of quote and objective change, signs, objectives with two independent closures (FleetUsage, WorkBalance)."
     ctx.run("C20-Q1", "quote = route-level estimate + activity-level estimate, threaded to every leg; one component per layer", q1_quote_composition, floor=9)
+    ctx.run("C20-S1", "sign/size agreement of quote and objective change: unassigned jobs (−estimator vs +estimator), tour count (±1 per opened tour)", s1_sign_agreement, floor=4)
     ctx.run("C20-Q2", "estimate and fitness use the same measure", q2_same_measure, floor=4)
